@@ -357,6 +357,15 @@ Interpolation_2D::Interpolation_2D()
 Interpolation_2D::Interpolation_2D(std::vector<double> x_val, std::vector<double> y_val, std::vector<std::vector<double>> func_values, double x_dim, double y_dim, double f_dim)
 : N_x(x_val.size()), N_y(y_val.size()), x_values(x_val), y_values(y_val), function_values(func_values), prefactor(1.0)
 {
+	// Some initial checks
+	bool valid_shape = (function_values.size() == N_x);
+	for(unsigned int i = 0; valid_shape && i < N_x; i++)
+		valid_shape = (function_values[i].size() == N_y);
+	if(!valid_shape)
+	{
+		std::cerr << "Error in libphysica::Interpolation_2D::Interpolation_2D(): The table of function values does not have the dimensions " << N_x << "x" << N_y << " of the argument lists." << std::endl;
+		std::exit(EXIT_FAILURE);
+	}
 	// Transform units
 	if(x_dim > 0.0)
 		for(unsigned int i = 0; i < N_x; i++)
